@@ -107,6 +107,7 @@ type Conn struct {
 type Run struct {
 	Mode    string   `json:"mode,omitempty"` // run | runto | runtoregex | runtoprocs
 	Targets []string `json:"targets,omitempty"`
+	Repeat  int      `json:"repeat,omitempty"` // build and run the workflow this many times in one process (command-free graphs)
 }
 
 // Load reads a spec from a file.
